@@ -181,6 +181,13 @@ func (c18) Exec(seed int64, i int, tier string) Record {
 			}
 		}
 		sp := &c18Spelling{p: q, text: text}
+		if r.Chance(25) {
+			// whatever was parsed before — also a path that fails half-way inside a nested filter — must
+			// not make one spelling behave differently from another
+			fp := c19FailPaths[r.Intn(len(c19FailPaths))]
+			SafeParse(fp.path, &cfg)
+			feats["history:failed-parse-before"] = true
+		}
 		var f Parsed
 		f, sp.out, sp.tree = ParseTree(text, &cfg)
 		if f != nil {
